@@ -9,10 +9,12 @@ deviations from the seeded default answers are run on the real library, each
 to completion under an explicit horizon.  The invariants of the operation are
 evaluated on EVERY completed execution.
 
-One family `op`; a case is one (operation, input, parameters); the family runs
-the whole bounded DFS for it.  The deviation bound of a case is the largest
-b <= bmax whose estimated number of executions fits the per-case budget (at
-least 1); it is reported per case in stats.  A case may carry "choices": then
+All families share one function; a case is one (operation, input,
+parameters); the family runs
+the whole bounded DFS for it, by iterative deepening: b = 1, 2, ... <= bmax as
+long as the number of executions of the next level (known exactly from the
+menus seen) fits the per-case budget; the bound completed is reported per
+case in stats.  A case may carry "choices": then
 exactly that execution is run (minimal replay).
 """
 import hashlib
@@ -490,6 +492,7 @@ def _same(a, b):
 
 
 SHORT_HORIZON = 40
+CONFIRM_HORIZON = 12     # when the reference model sees no admissible swap
 
 
 def fam_op(case):
@@ -502,17 +505,21 @@ def fam_op(case):
     if case.get("choices") is not None:
         bound = None
         horizon = int(case.get("horizon", horizon))
+        r = ref.drive(run_fn, judge, _sig, bound, horizon,
+                      choices=case["choices"])
+    elif ref.default_is_cut(run_fn, horizon):
+        # the all-default execution does not end within the full horizon:
+        # look for an end among the single deviations within the first
+        # SHORT_HORIZON draws (CONFIRM_HORIZON when the reference model says
+        # that no admissible swap exists at all)
+        bound = 1
+        horizon = CONFIRM_HORIZON if adm is False else SHORT_HORIZON
+        stats["default_execution_cut"] = 1
+        r = ref.drive(run_fn, judge, _sig, bound, horizon)
     else:
-        bound, dcut = ref.pick_bound(run_fn, horizon,
-                                     int(case.get("bmax", 2)),
-                                     int(case.get("budget", 1000)))
-        if dcut:
-            # the all-default execution does not end: look for an end among
-            # the single deviations within the first SHORT_HORIZON draws
-            bound, horizon = 1, SHORT_HORIZON
-            stats["default_execution_cut"] = 1
-    r = ref.drive(run_fn, judge, _sig, bound, horizon,
-                  choices=case.get("choices"))
+        bound, r = ref.deepen(run_fn, judge, _sig, horizon,
+                              int(case.get("bmax", 2)),
+                              int(case.get("budget", 1000)))
     if case.get("choices") is None:
         ref.selftest_replay(run_fn, r["sample"], horizon, _same)
     completed = r["states"] - r["cut"]
@@ -542,7 +549,9 @@ def fam_op(case):
             "transitions": r["transitions"], "traces": r["traces"]}
 
 
-FAMILIES = {"op": fam_op}
+FAMILIES = {"op": fam_op, "rewire": fam_op, "geomodel": fam_op,
+            "cross_rewire": fam_op, "cross_set": fam_op,
+            "distance_kernel": fam_op, "models": fam_op}
 
 
 # ---------------------------------------------------------------------------
@@ -579,9 +588,10 @@ def run(ctx):
     g5 = [(n, m) for (n, _, m) in iso(5)]
     g6 = [(6, m) for m in (ISO6_CONNECTED_LE8 if thorough
                            else ISO6_CONNECTED_LE8[2::4])]
-    own = dict(bmax=3 if thorough else 2, budget=700 if thorough else 500)
-    own6 = dict(bmax=3 if thorough else 2, budget=400)
-    ig = dict(bmax=2, budget=4000 if thorough else 500)
+    own = dict(bmax=3 if thorough else 2, budget=2000 if thorough else 400)
+    own6 = dict(bmax=3 if thorough else 2, budget=1200 if thorough else 400)
+    ig = dict(bmax=2, budget=1500 if thorough else 400)
+    xs = dict(bmax=3 if thorough else 2, budget=700 if thorough else 300)
     its = (1, 2, 3)
 
     def reversed_labels(g):
@@ -601,12 +611,12 @@ def run(ctx):
             if h not in gr:
                 gr.append(h)
     cases = [mk("rewire", g, {"it": it}, ig) for g in gr for it in its]
-    ctx.explore("op", cases, chunk=4, desc="Network.randomly_rewire")
+    ctx.explore("rewire", cases, chunk=4, desc="Network.randomly_rewire")
     # 2. geographical models
     cases = []
-    api = dict(bmax=2, budget=300 if thorough else 150)
+    api = dict(bmax=2, budget=400 if thorough else 200)
     deep = dict(bmax=4 if thorough else 3,
-                budget=12000 if thorough else 4000)
+                budget=8000 if thorough else 3000)
     for g in g5 + g6:
         six = g[0] == 6
         for model in ("I", "II", "III"):
@@ -623,7 +633,8 @@ def run(ctx):
             cases.append(mk("geo", g, {"model": model, "pts": "general",
                                        "eps": 100.0, "it": 1, "cls": "geo",
                                        "level": "api"}, api))
-    ctx.explore("op", cases, chunk=2, desc="randomly_rewire_geomodel_I/II/III"
+    ctx.explore("geomodel", cases, chunk=2,
+                desc="randomly_rewire_geomodel_I/II/III"
                 " (method: shallow; compiled kernel on the method's "
                 "arguments: deep)")
     # 3. cross-link rewiring
@@ -640,7 +651,8 @@ def run(ctx):
                 cases.append(mk("xrewire", g, {"L1": L1, "L2": L2,
                                                "it": it},
                                 own if n == 5 else own6))
-    ctx.explore("op", cases, chunk=4, desc="RandomlyRewireCrossLinks")
+    ctx.explore("cross_rewire", cases, chunk=4,
+                desc="RandomlyRewireCrossLinks")
     # 4. setting cross links
     cases = []
     parts5 = [([0], [1, 2, 3, 4]), ([0, 1], [2, 3, 4]), ([0, 2, 4], [1, 3]),
@@ -653,8 +665,9 @@ def run(ctx):
                              ["density", 0.5], ["keep"]):
                     cases.append(mk("xset", g, {"L1": L1, "L2": L2,
                                                 "variant": variant,
-                                                "mode": mode}, own))
-    ctx.explore("op", cases, chunk=4, desc="RandomlySetCrossLinks(_sparse)")
+                                                "mode": mode}, xs))
+    ctx.explore("cross_set", cases, chunk=4,
+                desc="RandomlySetCrossLinks(_sparse)")
     # 5. distance-kernel model
     cases = []
     for g in ((4, 0), (4, 63), (5, 0), (5, 75), (5, 1023)):
@@ -665,8 +678,9 @@ def run(ctx):
                     cases.append(mk("dist", g, {"cls": cls, "pts": pts,
                                                 "ab": ab},
                                     dict(bmax=2, budget=3500 if thorough
-                                         else 500)))
-    ctx.explore("op", cases, chunk=2, desc="set_random_links_by_distance")
+                                         else 400)))
+    ctx.explore("distance_kernel", cases, chunk=2,
+                desc="set_random_links_by_distance")
     # 6. model generators
     cases = []
 
@@ -696,7 +710,7 @@ def run(ctx):
     for (n, k, p) in ((5, 1, 0.0), (5, 1, 0.5), (5, 1, 1.0), (6, 2, 0.5),
                       (6, 1, 0.25)):
         model("WattsStrogatz", {"N": n, "k": k, "p": p}, ig)
-    ctx.explore("op", cases, chunk=2, desc="Network.Model: ErdosRenyi, "
+    ctx.explore("models", cases, chunk=2, desc="Network.Model: ErdosRenyi, "
                 "BarabasiAlbert(_igraph), Configuration, WattsStrogatz")
     ctx.rule = (
         "inputs: iso(5) (34 graphs) and %s connected graphs on 6 nodes with "
@@ -711,8 +725,9 @@ def run(ctx):
         "edge/index draws -> every index; igraph getrandbits(32) -> 8 "
         "mid-bucket values, random() -> {0,1/4,1/2,3/4,0.999}; numpy matrix "
         "draws -> the same real menu per cell; option 0 = seeded default; "
-        "all executions with <= b deviations, b = the largest value <= bmax "
-        "whose estimated execution count fits the per-case budget (>=1).  A "
+        "all executions with <= b deviations, b raised from 1 towards bmax "
+        "while the execution count of the next level fits the per-case "
+        "budget.  A "
         "case is non-trivial when the answers changed the result; distinct "
         "= distinct sets of resulting adjacency matrices." % (
             "all 60" if thorough else "15 of the 60",
@@ -723,6 +738,7 @@ def run(ctx):
                  "geomodel kernel direct": deep["bmax"]},
         "per_case_budget": {"5 nodes": own["budget"],
                             "6 nodes": own6["budget"], "igraph": ig["budget"],
+                            "set cross links": xs["budget"],
                             "geomodel via method": api["budget"],
                             "geomodel kernel direct": deep["budget"]},
         "horizon": {"kernel draws": KERNEL_HORIZON,
